@@ -5,7 +5,7 @@
    only octets in [lo, c) outside the two-octet hole [h, h+2) -- the RDLENGTH field of the record
    being written (h >= c: no hole).  Decoding from a member of S therefore never looks at the
    header, at octets at or above c, or at the hole, and is unaffected by writes there. *)
-From QV Require Import Base.ListX Model.MsgWriter Proofs.NameWireP Proofs.MsgWriterP.
+From QV Require Import Base.ListX Model.MsgWriter Spec.NameWireS Proofs.NameWireP Proofs.MsgWriterP.
 
 Local Open Scope nat_scope.
 
@@ -13,7 +13,7 @@ Definition okr (lo c h a e : nat) : Prop := lo <= a /\ e <= c /\ (e <= h \/ h + 
 
 Definition ptr_step (b : bytes) (lo c h : nat) (S : nat -> Prop) (p : nat) : Prop :=
   exists hi l, nth_error b p = Some hi /\ is_pointer_octet hi = true /\ nth_error b (p + 1) = Some l /\
-    okr lo c h p (p + 2) /\ ptr_target hi l < p /\ S (ptr_target hi l).
+    okr lo c h p (p + 2) /\ ptr_target hi l < p /\ S (ptr_target hi l) /\ (hi < 256)%N.
 
 Definition nextok (b : bytes) (lo c h : nat) (S : nat -> Prop) (p : nat) : Prop :=
   S p \/ ptr_step b lo c h S p.
@@ -41,8 +41,8 @@ Proof. unfold okr. lia. Qed.
 Lemma nextok_mono b lo c h (S S' : nat -> Prop) p c' : (forall s, S s -> S' s) -> c <= c' ->
   nextok b lo c h S p -> nextok b lo c' h S' p.
 Proof.
-  intros HS Hc [H|[hi [l [H1 [H2 [H3 [H4 [H5 H6]]]]]]]]; [left; auto|right].
-  exists hi, l. split; [auto|]. split; [auto|]. split; [auto|]. split; [eapply okr_mono; eauto|]. split; auto.
+  intros HS Hc [H|[hi [l [H1 [H2 [H3 [H4 [H5 [H6 H7]]]]]]]]]; [left; auto|right].
+  exists hi, l. split; [auto|]. split; [auto|]. split; [auto|]. split; [eapply okr_mono; eauto|]. split; [auto|]. split; auto.
 Qed.
 
 Lemma local_mono b lo c h (S S' : nat -> Prop) s c' : (forall s, S s -> S' s) -> c <= c' ->
@@ -60,8 +60,8 @@ Lemma closed_rehole b lo c h S h2 : closed b lo c h S -> c <= h2 -> closed b lo 
 Proof.
   intros H Hc s Hs. destruct (H s Hs) as [x [H1 [H2 [H3 H4]]]]. exists x. split; [auto|]. split; [auto|]. split.
   - eapply okr_rehole; eauto.
-  - intros Hx. destruct (H4 Hx) as [K|[hi [l [K1 [K2 [K3 [K4 [K5 K6]]]]]]]]; [left; auto|right].
-    exists hi, l. split; [auto|]. split; [auto|]. split; [auto|]. split; [eapply okr_rehole; eauto|]. split; auto.
+  - intros Hx. destruct (H4 Hx) as [K|[hi [l [K1 [K2 [K3 [K4 [K5 [K6 K7]]]]]]]]]; [left; auto|right].
+    exists hi, l. split; [auto|]. split; [auto|]. split; [auto|]. split; [eapply okr_rehole; eauto|]. split; [auto|]. split; auto.
 Qed.
 
 Lemma closed_equiv b lo c h (S S' : nat -> Prop) : (forall s, S s <-> S' s) -> closed b lo c h S ->
@@ -103,7 +103,7 @@ Qed.
 
 Lemma ptr_step_transfer b lo c h S b' p : ragree lo c h b b' -> ptr_step b lo c h S p -> ptr_step b' lo c h S p.
 Proof.
-  intros R [hi [l [K1 [K2 [K3 [K4 [K5 K6]]]]]]]. exists hi, l. split; [|split; [auto|split; [|auto]]].
+  intros R [hi [l [K1 [K2 [K3 [K4 [K5 [K6 K7]]]]]]]]. exists hi, l. split; [|split; [auto|split; [|auto]]].
   - rewrite (ragree_okr _ _ _ _ _ _ _ p R K4); auto; lia.
   - rewrite (ragree_okr _ _ _ _ _ _ _ (p + 1) R K4); auto; lia.
 Qed.
@@ -137,7 +137,7 @@ Proof.
       * rewrite (ragree_okr _ _ _ _ _ _ _ i R X3); auto; lia.
       * apply IH. apply X4. lia.
     + rewrite E in K1. inversion K1; subst hi. rewrite (small_not_pointer len H63) in K2. discriminate.
-  - destruct Hk as [Hs|[hi' [l' [K1 [K2 [K3 [K4 [K5 K6]]]]]]]].
+  - destruct Hk as [Hs|[hi' [l' [K1 [K2 [K3 [K4 [K5 [K6 K7]]]]]]]]].
     + destruct (H i Hs) as [x [X1 [X2 _]]]. rewrite E in X1. inversion X1; subst x.
       rewrite (small_not_pointer hi X2) in Hp. discriminate.
     + rewrite E in K1. inversion K1; subst hi'. rewrite E2 in K3. inversion K3; subst l'.
@@ -199,3 +199,96 @@ Proof.
   induction ls as [|l r IH]; intros i s; simpl; [tauto|].
   rewrite app_length. intros [<-|H]; [lia|]. apply IH in H. lia.
 Qed.
+
+(* ---------------------------------------------------------------- the RFC 1035 decoding relation *)
+
+Lemma land63' h : (h < 64)%N -> N.land (192 + h) 63 = h.
+Proof.
+  intros H. change 63%N with (N.ones 6). rewrite N.land_ones. change (2 ^ 6)%N with 64%N.
+  symmetry. apply (N.mod_unique _ _ 3%N); lia.
+Qed.
+
+Lemma spec_target hi l : is_pointer_octet hi = true -> (hi < 256)%N ->
+  (192 <= hi)%N /\ N.to_nat ((hi - 192) * 256 + l) = ptr_target hi l.
+Proof.
+  intros Hp Hlt. rewrite is_pointer_octet_spec in Hp by exact Hlt. apply N.leb_le in Hp.
+  split; auto. unfold ptr_target. f_equal. f_equal. f_equal.
+  replace hi with (192 + (hi - 192))%N at 2 by lia. rewrite land63'; lia.
+Qed.
+
+Lemma name_at_fun b c i ls1 : name_at b c i ls1 -> forall c' ls2, name_at b c' i ls2 -> ls1 = ls2.
+Proof.
+  induction 1 as [i Hi E|i len rest E H0 H63 Hc Hn IH|i hi l rest E Hp E2 Hc Ht Hr Hn IH];
+    intros c' ls2 H2.
+  - inversion H2; subst; auto.
+    + rewrite E in H. inversion H; subst. lia.
+    + rewrite E in H. inversion H; subst. rewrite is_pointer_octet_0 in H0. discriminate.
+  - inversion H2; subst.
+    + rewrite E in H1. inversion H1; subst. lia.
+    + rewrite E in H. inversion H; subst. f_equal. eapply IH; eauto.
+    + rewrite E in H. inversion H; subst. rewrite (small_not_pointer _ H63) in H1. discriminate.
+  - inversion H2; subst.
+    + rewrite E in H0. inversion H0; subst. rewrite is_pointer_octet_0 in Hp. discriminate.
+    + rewrite E in H. inversion H; subst. rewrite (small_not_pointer _ H1) in Hp. discriminate.
+    + rewrite E in H. inversion H; subst. rewrite E2 in H1. inversion H1; subst. eapply IH; eauto.
+Qed.
+
+(* every member decodes under the specification's relation too (pointers lead strictly before
+   the start of the label sequence that contains them), to the same labels *)
+Definition sdec (b : bytes) (c : nat) (S : nat -> Prop) : Prop :=
+  forall s, S s -> exists ls e, name_at b c s ls /\ decodes b s s ls e.
+
+Lemma decodes_cs_mono b cs i ls e : decodes b cs i ls e -> forall cs', cs <= cs' -> decodes b cs' i ls e.
+Proof.
+  induction 1 as [cs i H | cs i len rest e H Hp Hl Hb Hd IH | cs i hi lo rest e' H Hh Hlo Ht Hd IH];
+    intros cs' Hc.
+  - constructor; auto.
+  - constructor; auto.
+  - eapply dec_ptr; eauto. lia.
+Qed.
+
+Lemma decodes_transfer b lo c h S b' : closed b lo c h S -> ragree lo c h b b' -> c <= length b' ->
+  forall cs i ls e, decodes b cs i ls e -> nextok b lo c h S i -> decodes b' cs i ls e.
+Proof.
+  intros H R Hlen.
+  induction 1 as [cs i E | cs i len rest e E Hp Hl Hb Hd IH | cs i hi l rest e' E Hh Hlo Ht Hd IH];
+    intros Hk.
+  - destruct Hk as [Hs|[hi [l [K1 [K2 _]]]]].
+    + destruct (H i Hs) as [x [X1 [X2 [X3 X4]]]]. rewrite E in X1. inversion X1; subst x.
+      constructor. rewrite (ragree_okr _ _ _ _ _ _ _ i R X3); auto; simpl; lia.
+    + rewrite E in K1. inversion K1; subst hi. rewrite is_pointer_octet_0 in K2. discriminate.
+  - destruct Hk as [Hs|[hi [l [K1 [K2 _]]]]].
+    + destruct (H i Hs) as [x [X1 [X2 [X3 X4]]]]. rewrite E in X1. inversion X1; subst x.
+      rewrite <- (ragree_slice lo c h b b' (i + 1) (i + 1 + N.to_nat len) R); try lia;
+        [|unfold okr in *; lia].
+      apply dec_label; auto.
+      * rewrite (ragree_okr _ _ _ _ _ _ _ i R X3); auto; lia.
+      * unfold okr in X3. lia.
+      * apply IH. apply X4. lia.
+    + rewrite E in K1. inversion K1; subst hi. rewrite (small_not_pointer len Hl) in K2. discriminate.
+  - destruct Hk as [Hs|[hi' [l' [K1 [K2 [K3 [K4 [K5 [K6 K7]]]]]]]]].
+    + destruct (H i Hs) as [x [X1 [X2 _]]]. rewrite E in X1. inversion X1; subst x. lia.
+    + rewrite E in K1. inversion K1; subst hi'. rewrite Hlo in K3. inversion K3; subst l'.
+      destruct (spec_target hi l K2 K7) as [_ Et].
+      eapply dec_ptr; eauto.
+      * rewrite (ragree_okr _ _ _ _ _ _ _ i R K4); auto; lia.
+      * rewrite (ragree_okr _ _ _ _ _ _ _ (i + 1) R K4); auto; lia.
+      * apply IH. left. rewrite Et. exact K6.
+Qed.
+
+Lemma sdec_transfer b lo c h S b' c0 : closed b lo c h S -> ragree lo c h b b' -> c <= length b' ->
+  sdec b c0 S -> sdec b' c0 S.
+Proof.
+  intros H R Hl D s Hs. destruct (D s Hs) as [ls [e [Hn Hd]]]. exists ls, e. split.
+  - eapply name_at_transfer; eauto. left; auto.
+  - eapply decodes_transfer; eauto. left; auto.
+Qed.
+
+Lemma sdec_mono b c S c' : sdec b c S -> c <= c' -> sdec b c' S.
+Proof.
+  intros D Hc s Hs. destruct (D s Hs) as [ls [e [Hn Hd]]]. exists ls, e. split; auto.
+  eapply name_at_stable; eauto. apply agree_refl.
+Qed.
+
+Lemma sdec_decodable b c S : sdec b c S -> decodable b c S.
+Proof. intros D s Hs. destruct (D s Hs) as [ls [e [Hn _]]]. eauto. Qed.
